@@ -13,8 +13,12 @@ Decided:
       `_ensure_stop_event_class`, `_validate_event_connectivity`, `validate_catch_error_handlers`) is interpreted
       (sa.absint, nothing imported) on every step set of a small universe and compared with the statement's clauses
       transcribed below as set predicates.
-Not decided: the graph-reachability checks beyond their gating (no independent oracle is derived for them),
-resource validation, step-signature validation, graphs outside the enumerated bound.
+  R4  bounded-exhaustive agreement of the graph checks: `validate_graph` (with `build_step_graph` and its traversal) is
+      interpreted on every small step graph under every workflow-level and per-step skip setting and must report an
+      error exactly when, by least-fixpoint reachability computed in the checker, some unskipped step is unreachable
+      from an input, some unskipped event-producing step cannot reach an output event, or a non-output event has no
+      consumer.
+Not decided: resource validation, step-signature validation, graphs outside the enumerated bound.
 """
 
 from __future__ import annotations
@@ -47,7 +51,12 @@ EXPLANATION = (
     "agree with the transcribed clauses (exactly one start / stop class; no step accepts a StopEvent; consumed\\produced and "
     "produced\\consumed contain only the documented boundary classes; flag == some produced class is an InputRequiredEvent "
     "or some consumed class is a HumanResponseEvent, by subclass; handler set consistent).  "
-    "Not decided: reachability / dead-end algorithms themselves, resource validation, graphs beyond the bound."
+    "R4 (bounded exhaustive, T10): `validate_graph` is interpreted on all 2-step graphs and on start->stop plus two inner steps "
+    "(one accepted, <=2 returned classes per step; boundary classes by subclass), under every workflow-level skip, every per-step "
+    "skip and with/without a @catch_error handler step, and its verdict (errors or none) is compared with forward/backward "
+    "least-fixpoint reachability computed by the checker from the statement (inputs: the start class, HumanResponseEvent "
+    "subclasses, handler steps; outputs: StopEvent / InputRequiredEvent subclasses; only event-producing steps can be dead ends).  "
+    "Not decided: resource validation, step-signature validation, graphs beyond the bound."
 )
 TRUSTED = ["CPython ast", "sa.absint interpreter (statement subset; unsupported constructs are exit 2)", "Python issubclass semantics modelled on a finite class table"]
 TECHNIQUE = "AST use-classification + CFG dominance + bounded exhaustive AST interpretation"
@@ -793,6 +802,129 @@ def _r3(chk, m, thorough: bool = False) -> None:
     chk.exhaustive = True
 
 
+# ------------------------------------------------------------------------------------------- R4 (graph checks vs. an independent oracle)
+
+
+def _r4(chk, m, thorough: bool = False) -> None:
+    """`validate_graph` (with build_step_graph and the traversal it uses) is interpreted on every small step graph and
+    every skip setting and compared, check by check and step by step, with reachability computed here by fixpoint."""
+    T = _mk_classes()
+    env, hooks = _env(m, T)
+    issub = _issub(T)
+    hooks = dict(hooks)
+    hooks["StepGraph"] = lambda **kw: Record("StepGraph", **kw)
+    hooks["GraphValidationError"] = lambda **kw: Record("GraphValidationError", **kw)
+    for need in ("validate_graph", "build_step_graph"):
+        if need not in m.functions:
+            raise AnchorError(f"C23.R4: `{need}` not found in {m.rel}")
+    key = ("r4",) + _r3_key(m, "validate_graph", thorough)
+    hit = _R3_MEMO.get(key)
+    NONE = T["NoneType"]
+    START = T["StartEvent"]
+    OUT = (T["StopEvent"], T["InputRequiredEvent"])
+
+    def oracle(steps, skip, catch):
+        """{check: set of offending steps} by the statement: every step reachable from an input (the start class, a
+        HumanResponseEvent, or — for @catch_error handlers — the runtime's failure routing), every step that produces
+        events able to reach an output event (StopEvent / InputRequiredEvent), except where skipped."""
+        produces = {n: [c for c in s.return_types if c is not NONE] for n, s in steps.items()}
+        accepts = {n: list(s.accepted_events) for n, s in steps.items()}
+        events = {c.__name__: c for n in steps for c in produces[n] + accepts[n]}
+        # forward: least fixpoint
+        live_ev = {START.__name__} | {k for k, c in events.items() if issub(c, T["HumanResponseEvent"])}
+        live_st = set(catch or [])
+        changed = True
+        while changed:
+            changed = False
+            for n in steps:
+                if n not in live_st and any(c.__name__ in live_ev for c in accepts[n]):
+                    live_st.add(n); changed = True
+                if n in live_st:
+                    for c in produces[n]:
+                        if c.__name__ not in live_ev:
+                            live_ev.add(c.__name__); changed = True
+        # backward: steps that can reach an output event
+        good_ev = {k for k, c in events.items() if issub(c, OUT)}
+        good_st: set[str] = set()
+        changed = True
+        while changed:
+            changed = False
+            for n in steps:
+                if n not in good_st and any(c.__name__ in good_ev for c in produces[n]):
+                    good_st.add(n); changed = True
+                if n in good_st:
+                    for c in accepts[n]:
+                        if c.__name__ not in good_ev:
+                            good_ev.add(c.__name__); changed = True
+        out = {}
+        if "reachability" not in skip:
+            out["reachability"] = {n for n in steps if n not in live_st and "reachability" not in steps[n].skip_graph_checks}
+        if "dead_end" not in skip:
+            out["dead_end"] = {n for n in steps if produces[n] and n not in good_st and "dead_end" not in steps[n].skip_graph_checks}
+        if "terminal_event" not in skip:
+            consumed = {c.__name__ for n in steps for c in accepts[n]}
+            out["terminal_event"] = {k for k, c in events.items() if k not in consumed and not issub(c, OUT)}
+        return out
+
+    def graphs():
+        ACC = [T[x] for x in ("StartEvent", "EvA", "EvB", "MyResponse")]
+        RET = [(), (T["MyStop"],), (T["EvA"],), (T["EvB"],), (T["MyInput"],), (NONE,), (T["EvA"], T["EvB"])]
+        per = [(a, r) for a in ACC for r in RET]
+        for (a0, r0), (a1, r1) in itertools.product(per, repeat=2):
+            yield [((a0,), r0), ((a1,), r1)]
+        # three steps: a complete start->stop step plus every pair of inner steps (detached cycles, tails, branches)
+        inner = [(a, r) for a in ACC[1:] for r in RET]
+        third = inner if thorough else [(a, r) for a in ACC[1:3] for r in RET[:4] + RET[5:6]]
+        for x, y in itertools.product(third, repeat=2):
+            yield [((START,), (T["MyStop"],)), ((x[0],), x[1]), ((y[0],), y[1])]
+
+    def settings(n):
+        yield set(), [[] for _ in range(n)], None
+        for chk_ in ("reachability", "dead_end", "terminal_event"):
+            yield {chk_}, [[] for _ in range(n)], None
+        for i in range(n):
+            for chk_ in ("reachability", "dead_end"):
+                sk = [[] for _ in range(n)]
+                sk[i] = [chk_]
+                yield set(), sk, None
+        yield set(), [[] for _ in range(n)], [f"s{n - 1}"]
+        yield {"reachability"}, [[] for _ in range(n)], [f"s{n - 1}"]
+
+    bad: dict[str, str | None] = {"accepts-bad": None, "rejects-good": None, "crash": None}
+    n_cases = n_rej = 0
+    if hit is None:
+        for g in graphs():
+            for skip, per_step, catch in settings(len(g)):
+                steps = {f"s{i}": _step(a, r, skip_graph_checks=per_step[i]) for i, (a, r) in enumerate(g)}
+                want = {k: v for k, v in oracle(steps, skip, catch).items() if v}
+                got = _run(m, env, hooks, "validate_graph", {"steps": steps, "start_event_class": START, "skip_checks": set(skip), "catch_error_steps": catch})
+                n_cases += 1
+                n_rej += bool(want)
+                desc = f"steps [{_show(steps)}], skip_checks={sorted(skip)}, per-step skips={per_step}, catch_error_steps={catch}"
+                if got[0] != "ok" or not isinstance(got[1], list):
+                    bad["crash"] = bad["crash"] or f"{desc}: validate_graph {got[0]} {got[1]!r}"
+                    continue
+                reported = sorted({e.check for e in got[1]})
+                if want and not got[1]:
+                    k = sorted(want)[0]
+                    what = {"reachability": "not reachable from an input", "dead_end": "producing events but unable to reach an output event", "terminal_event": "(events) produced or accepted without a consumer and not output events"}[k]
+                    bad["accepts-bad"] = bad["accepts-bad"] or f"{desc}: {sorted(want[k])} {what} and `{k}` is not skipped for them, yet validate_graph reports no error (the workflow validates)"
+                elif got[1] and not want:
+                    bad["rejects-good"] = bad["rejects-good"] or f"{desc}: every unskipped step is reachable and every unskipped event-producing step reaches an output event, yet validate_graph reports {reported}"
+        _R3_MEMO[key] = (dict(bad), (n_cases, n_rej))
+    else:
+        bad, (n_cases, n_rej) = dict(hit[0]), hit[1]
+    fn_ = m.functions["validate_graph"]
+    dom = f"{n_cases} (graph, skip setting) pairs, {n_rej} of them ill-formed: all 2-step graphs and start→stop plus 2 inner steps, 1 accepted and ≤2 returned classes per step, every workflow-level and per-step skip, with/without a catch_error handler"
+    chk.ob("C23.R4", f"validate_graph reports an error whenever an unskipped step is unreachable, an unskipped event-producing step cannot reach an output event, or a non-output event has no consumer ({dom})",
+           bad["accepts-bad"] is None, m=m, node=fn_, fn=fn_, instance="graph:rejects-ill-formed", reason=bad["accepts-bad"] or "")
+    chk.ob("C23.R4", "validate_graph reports nothing for a graph that is well-formed up to the skipped checks (same domain)", bad["rejects-good"] is None, m=m, node=fn_, fn=fn_, instance="graph:accepts-well-formed", reason=bad["rejects-good"] or "")
+    chk.ob("C23.R4", "validate_graph returns a list of errors on every graph of the domain", bad["crash"] is None, m=m, node=fn_, fn=fn_, instance="graph:total", reason=bad["crash"] or "")
+    chk.floor("C23.R4", "ill-formed graph/skip pairs in the domain", n_rej, 500)
+    chk.floor("C23.R4", "graph/skip pairs interpreted", n_cases, 1000)
+    chk.extra["r4_domain"] = {"interpreted_runs": n_cases, "thorough": thorough}
+
+
 # ------------------------------------------------------------------------------------------- entry
 
 
@@ -802,6 +934,7 @@ def run(chk) -> None:
     _r1(chk, m)
     _r2(chk, repo, m)
     _r3(chk, m, thorough=False)
+    _r4(chk, m, thorough=False)
 
 
 def run_thorough(chk) -> None:
@@ -809,6 +942,7 @@ def run_thorough(chk) -> None:
     m = chk.repo.module(VAL)
     before = len(chk.obligations)
     _r3(chk, m, thorough=True)
+    _r4(chk, m, thorough=True)
     # keep one copy of each obligation key (the thorough one supersedes the quick one)
     new = chk.obligations[before:]
     keys = {o.key for o in new}
@@ -844,6 +978,13 @@ _HITL_RET = _hitl_return_text()
 _HITL_PINNED = "    return (\n        InputRequiredEvent in produced_events or HumanResponseEvent in consumed_events\n    )\n"
 
 TWINS = [
+    # R4
+    Twin("dead-end check only over reachable steps", _V, "            for s in graph.step_names\n            if any(isinstance(t, type) for t in graph.outgoing.get(s, []))", "            for s in graph.step_names & graph.forward_reachable\n            if any(isinstance(t, type) for t in graph.outgoing.get(s, []))", "C23.R4"),
+    Twin("per-step reachability skip exempts every step", _V, "            for name in graph.step_names - step_skip\n            if name not in graph.forward_reachable", "            for name in graph.step_names - step_skip\n            if name not in graph.forward_reachable and not step_skip", "C23.R4"),
+    Twin("traversal stops after one hop", _V, "        for target in adjacency.get(node, []):\n            if target not in visited:\n                stack.append(target)", "        for target in adjacency.get(node, []):\n            if target not in visited and node in seeds:\n                stack.append(target)", "C23.R4"),
+    Twin("handler steps are not seeds", _V, "    for handler_name in catch_error_steps or []:\n        if handler_name not in seeds:\n            seeds.append(handler_name)", "    for handler_name in catch_error_steps or []:\n        if handler_name in seeds:\n            seeds.append(handler_name)", "C23.R4"),
+    Twin("benign: traversal with a visited test at push time only", _V, "        node = stack.pop()\n        if node in visited:\n            continue\n        visited.add(node)\n        for target in adjacency.get(node, []):\n            if target not in visited:\n                stack.append(target)", "        node = stack.pop()\n        if node not in visited:\n            visited.add(node)\n            stack.extend(t for t in adjacency.get(node, []) if t not in visited)", None),
+    Twin("benign: dead ends as a set difference", _V, "            for name in steps_producing_events - step_skip\n            if name not in graph.reverse_reachable", "            for name in (steps_producing_events - step_skip) - {x for x in graph.reverse_reachable if isinstance(x, str)}", None),
     # R1
     Twin("revert of the repair: HITL flag by exact-class membership", _V, _HITL_RET, _HITL_PINNED, "C23.R1"),
     Twin("produced side by exact-class membership", _V, _HITL_RET,
